@@ -156,7 +156,7 @@ def main():
                 if c.nontrivial:
                     nontrivial_set.add(c.impl)
                 verdicts = mod.judge(c, impl_out[i], model_out[i], spec_out[i], ctx)
-                if verdicts and getattr(mod, "RETRY_PREFIX", None) and c.kind.startswith(mod.RETRY_PREFIX):
+                if verdicts and getattr(mod, "RETRY_PREFIX", None) and (mod.RETRY_PREFIX == "*" or c.kind.startswith(mod.RETRY_PREFIX)):
                     # real sockets / real time: a verdict must persist in 2 of 3 solitary re-runs
                     again = 0
                     for _ in range(2):
